@@ -131,6 +131,7 @@ type vsEnv struct {
 //	  the K-th call of helper NAME made inside the call
 type hookCtx struct {
 	outArr    smt.Term
+	outMem    *RegMem // exit hooks: the packet memory (overlay of bytes at concrete offsets over a base array)
 	pre, post *State
 	post2     *State // call2 hooks: state after the second call
 	args      []*Val
@@ -510,7 +511,18 @@ func (v *vsEnv) eval(x *sx) (vsVal, error) {
 		}
 		var parts []smt.Term
 		for i := int64(0); i < n; i++ {
-			parts = append(parts, smt.Select(v.hook.outArr, tm.addConst(o, uint64(i))))
+			oi := tm.addConst(o, uint64(i))
+			if c, ok := bvConst(oi); ok && v.hook.outMem != nil {
+				// a byte at a concrete offset: straight from the overlay (or the
+				// untouched base array), not through the store chain
+				if b, ok := v.hook.outMem.Ov[int64(c)]; ok {
+					parts = append(parts, v.e.byteTerm(b))
+				} else {
+					parts = append(parts, smt.Select(v.hook.outMem.Base, oi))
+				}
+				continue
+			}
+			parts = append(parts, smt.Select(v.hook.outArr, oi))
 		}
 		return v.bytesBE(parts), nil
 	case "pre-le", "post-le", "post2-le":
